@@ -131,6 +131,7 @@ class Candle:
         """Expected list [open, high, low, close, volume]
         with optional datetime at the beginning or end."""
         timestamp = None
+        candle = list(candle)
         if isinstance(candle[0], datetime):
             timestamp = candle.pop(0)
         elif isinstance(candle[-1], datetime):
